@@ -76,7 +76,7 @@ def generate(rng, tier, i):
         if ys[-1].denominator == 1 and rng.random() < 0.5:
             ys[-1] += F(1, 2)
     elif cls == "shifted_origin":
-        ox, oy = rng.choice([F(1), F(2), F(0), F(1, 2)]), rng.choice([F(1), F(0), F(3)])
+        ox, oy = rng.choice([F(1), F(2), F(0), F(1, 2), F(1000000), F(123456)]), rng.choice([F(1), F(0), F(3), F(1000000)])
         if ox == 0 and oy == 0:
             ox = F(1)
         xs, ys = geo.make_axis(rng, "int", nx, origin=ox), geo.make_axis(rng, "int", ny, origin=oy)
